@@ -120,7 +120,18 @@ func (s *HTTPMessageSignatures) init() error {
 
 	keys := make([]jose.JSONWebKey, len(ks.Entries()))
 	for idx, entry := range ks.Entries() {
+		if err = entry.CheckSigningSupport(); err != nil {
+			return errorchain.NewWithMessage(heimdall.ErrConfiguration,
+				"key store for http_message_signatures strategy contains a key, which cannot be used for signing purposes").
+				CausedBy(err)
+		}
+
 		keys[idx] = entry.JWK()
+	}
+
+	if err = kse.CheckSigningSupport(); err != nil {
+		return errorchain.NewWithMessage(heimdall.ErrConfiguration,
+			"key for http_message_signatures strategy cannot be used for signing purposes").CausedBy(err)
 	}
 
 	signer, err := httpsig.NewSigner(
@@ -229,7 +240,7 @@ func getECDSAAlgorithm(keySize int) httpsig.SignatureAlgorithm {
 		return httpsig.EcdsaP256Sha256
 	case 384: //nolint: mnd
 		return httpsig.EcdsaP384Sha384
-	case 512: //nolint: mnd
+	case 512, 521: //nolint: mnd
 		return httpsig.EcdsaP521Sha512
 	default:
 		panic(fmt.Sprintf("unsupported ECDSA key size: %d", keySize))
